@@ -176,7 +176,8 @@ def _flav_jobs(tier, quick, thorough):
 
 PLANS['C05'] = dict(
     engine='registry', level='exploration', jobs=lambda tier: _flav_jobs(tier, (8, 400), (8, 3000)),
-    minimums=lambda t: dict([('probes', 8000), ('answers_changed_by_mutation', 300), ('cache_hits_confirmed', 4000)] +
+    minimums=lambda t: dict([('probes', 8000), ('answers_changed_by_mutation', 300), ('cache_hits_confirmed', 4000),
+                             ('mutations_overlapping_a_lookup', 300), ('mutations_in_a_burst', 500), ('rebuilds_between_lookups', 100)] +
                             [('changed[%s]' % k, 5) for k in ('register', 'unregister', 'subscribe', 'unsubscribe',
                                                               'registry_bases', 'spec_bases', 'class_declaration', 'object_declaration')]),
     rule='Histories interleaving all nine lookup entry points with all eight mutation kinds (register/unregister/subscribe/'
@@ -192,7 +193,8 @@ PLANS['C06'] = dict(
     engine='registry', level='exploration', jobs=lambda tier: _flav_jobs(tier, (8, 600), (8, 5000)),
     minimums=lambda t: {'ro_invariant_checks': 3000, 'behaviour_probes': 8000, 'rebasings': 300,
                         'rebasings_changing_a_descendant_chain': 60, 'probes_answered_by_an_ancestor': 500,
-                        'components_probes': 500, 'components_rebasings': 100},
+                        'components_probes': 500, 'components_rebasings': 100, 'registrations_overlapping_a_lookup': 300,
+                        'rebasings_into_inconsistent_base_lists': 200},
     rule='Registry DAGs (1-5 members, chains and diamonds, one flavour per world; a fifth of the worlds may re-base into base lists without a '
          'C3 order, where a freshly built registry graph is the reference) with distinguishing registrations and '
          'subscriptions in every member; random __bases__ reassignments of any member and registrations in any member; after '
